@@ -274,8 +274,6 @@ def oracle_eval(ctx, ctors, intents, xs, s, p, rp=None):
         want = sum(abs(Fraction(v)) for v in parts)
         if want >= OVERFLOW:                                # finite violations whose sum is beyond the largest double: the float total is +inf
             ok = cv == INF
-            if not s.feasible and ok:
-                pass
         else:
             ok = abs(cv) != INF and abs(Fraction(cv) - want) <= want * Fraction(1, 10 ** 12)
     if not ok:
